@@ -86,6 +86,7 @@ def main():
             ep = p.world.storage['epoch']
             ck.oblige('C20.mgr.catch_up.three_steps', p, z3.Or(ep.fields[0] != eid + 3, ep.fields[1].fields[0].fields[0] != start + 3 * dur, now - start < 3 * dur), 'three creations in one block advance id and start by exactly three steps, and only when three durations have elapsed')
     ck.require(n3 >= 1, 'catch-up history: no path with three successful creations')
+    other_messages(ck, prog)
     distributor(ck)
     try:
         import c20_collector
@@ -94,6 +95,34 @@ def main():
         ck.outside.append('collector echo part not built')
     ck.bounds.update(hooks='0..3 registered hooks (symbolic addresses)', widths='all times/ids/durations full u64')
     return ck.finish()
+
+
+def other_messages(ck, prog):
+    """the epoch clock is moved by CreateEpoch only: the manager's other messages (UpdateConfig with every combination of optional fields and arbitrary
+    new duration / genesis, AddHook, RemoveHook), sent by the owner, leave the stored epoch (id and start time) exactly as it was - so a
+    configuration change made while an epoch runs cannot make the next creation early or move a start time backwards."""
+    EMX = EM + 'ExecuteMsg'
+    def mk_update(it):
+        c = it.ctx
+        return it.mkv(EMX, 'UpdateConfig', **opts(it, [('owner', lambda: Str('new_owner')),
+                                                      ('epoch_config', lambda: it.mk(EM + 'EpochConfig', duration=U64(c.sym('new_duration', 64)), genesis_epoch=U64(c.sym('new_genesis', 64))))]))
+    for label, mk in (('UpdateConfig', mk_update), ('AddHook', lambda it: it.mkv(EMX, 'AddHook', contract_addr=Str('hook_c'))), ('RemoveHook', lambda it: it.mkv(EMX, 'RemoveHook', contract_addr=Str('hook_a')))):
+        def body(it, mk=mk):
+            c = it.ctx
+            eid = c.sym('id', 64); start = c.sym('start', 64); dur = c.sym('duration', 64); gen = c.sym('genesis', 64)
+            w = it.world; w.contract = 'epoch_manager'
+            w.item('epoch', it.mk(EM + 'EpochV2', id=eid, start_time=TS(start)))
+            w.item('config', it.mk(EM + 'Config', epoch_config=it.mk(EM + 'EpochConfig', duration=U64(dur), genesis_epoch=U64(gen))))
+            w.admin['admin'] = SOME(ADDR('owner')); w.hooks['hooks'] = [Str('hook_a'), Str('hook_b')]
+            return enter(it, 'epoch_manager', 'execute', mk_env(it, c.sym('now', 64)), mk_info('owner', []), mk(it))
+        n = 0
+        for p in ck.explore(prog, body, 'mgr.other.' + label):
+            if p.kind not in ('ret',): continue
+            n += 1 if p.ok else 0
+            ep = p.world.storage['epoch']
+            moved = z3.Or(zint(ep.fields[0]) != z3.Int('id'), zint(ep.fields[1].fields[0].fields[0]) != z3.Int('start'))
+            ck.oblige('C20.mgr.only_create_moves_the_clock.' + label, p, moved, 'the stored epoch (id, start time) is untouched by ' + label)
+        ck.require(n >= 1, 'mgr.other.%s: no accepted path' % label)
 
 
 def distributor(ck):
@@ -134,6 +163,21 @@ def distributor(ck):
                 ck.oblige('C20.dist.early.' + tag, p, z3.And(now >= cur_start, now - cur_start >= dur, z3.Or(not genesis, now >= gen), cur_id + 1 < 2**64,
                                                             True if genesis else cur_start + dur < 2**64), 'rejected only when early, before genesis or on overflow')
         ck.require(n >= 1, tag + ': no Ok path')
+    # the distributor's clock is moved by NewEpoch (+ the collector's reply) only: a configuration update, whatever it changes, writes no epoch
+    def body_upd(it):
+        c = it.ctx
+        st = LD.setup_dist(it, 2, 1, cursor='some')
+        M = lambda: Str('someone')
+        msg = it.mkv(LD.FX, 'UpdateConfig', **opts(it, [('owner', M), ('bonding_contract_addr', M), ('fee_collector_addr', M), ('grace_period', lambda: U64(c.sym('new_grace', 64))),
+                                                        ('distribution_asset', lambda: it.mkv('white_whale_std::pool_network::asset::AssetInfo', 'NativeToken', denom=Str('uatom'))),
+                                                        ('epoch_config', lambda: it.mk(EM + 'EpochConfig', duration=U64(c.sym('new_duration', 64)), genesis_epoch=U64(c.sym('new_genesis', 64))))]))
+        return enter(it, 'fee_distributor', 'execute', mk_env(it, c.sym('now', 64)), mk_info('owner', []), msg)
+    n = 0
+    for p in ck.explore(prog, body_upd, 'dist.update_config'):
+        if p.kind != 'ret': continue
+        n += 1 if p.ok else 0
+        ck.oblige('C20.dist.only_new_epoch_moves_the_clock.UpdateConfig', p, any(w[0] not in ('config',) for w in p.world.writes), 'a configuration update writes nothing but the configuration (no epoch record is touched)')
+    ck.require(n >= 1, 'dist.update_config: no accepted path')
 
 
 if __name__ == '__main__':
